@@ -1,7 +1,7 @@
 (* Properties/C17.v — C17: configured limits and quotas hold under concurrency.
    Model: Model/Limits.v over Base/Threads.v (one thread step = one mutex-protected section / one atomic
    Load, Add or CAS / one storage-level count or create).  Every theorem quantifies over ANY limit value
-   (0 = unlimited where the code says so, 1, n), ANY number of admitters and ANY schedule.
+   (0 = unlimited where the code says so, 1, n), ANY number of acceptters and ANY schedule.
    `Current` = the code with fixes/C17-*.diff applied, `Pinned` = the code as found (refuted below). *)
 From TX Require Import Model.Limits Proofs.Limits Proofs.SideC17 Gen.C17.
 From Coq Require Import ZArith.
@@ -10,14 +10,14 @@ From Coq Require Import ZArith.
 
 (* In every reachable state of any number of concurrent callers (each closing its connection again or not):
    len(connMap) <= MaxConnections (when a limit is set), and the bookkeeping is exact — connMap holds the pre-existing
-   entries plus one per admitted, not yet closed caller; the StreamManager one per caller that was not refused.
+   entries plus one per accepted, not yet closed caller; the StreamManager one per caller that was not refused.
    A refused caller is counted in neither. *)
 Theorem C17_server_cap_never_exceeds :
   forall (max base sbase : nat) (closes : list bool) (sched : list nat),
   (0 < max -> base <= max) ->
   let s := srun Current max {| conns := base; streams := sbase |} (map s_new closes) sched in
   (0 < max -> conns (fst s) <= max) /\
-  conns (fst s) = base + countb (s_is SAdmitted) (snd s) /\
+  conns (fst s) = base + countb (s_is SAccepted) (snd s) /\
   streams (fst s) = sbase + countb s_holds_stream (snd s).
 Proof. exact server_cap_never_exceeds. Qed.
 Print Assumptions C17_server_cap_never_exceeds.
@@ -52,11 +52,11 @@ Theorem C17_tunnel_registry_refused_changes_nothing :
 Proof. exact treg_refused_unchanged. Qed.
 Print Assumptions C17_tunnel_registry_refused_changes_nothing.
 
-Theorem C17_tunnel_registry_admits_below_cap :
+Theorem C17_tunnel_registry_accepts_below_cap :
   forall max id t m, id <> 0%N -> at_cap max (length m) = false ->
   fst (treg_apply max (RReg id t) m) = ROk /\ In id (keys (snd (treg_apply max (RReg id t) m))).
-Proof. exact treg_admits_below. Qed.
-Print Assumptions C17_tunnel_registry_admits_below_cap.
+Proof. exact treg_accepts_below. Qed.
+Print Assumptions C17_tunnel_registry_accepts_below_cap.
 
 (* "a registration whose TunnelID is already registered is a replacement and skips the capacity check" (NOT the code): the
    cap is on connMap, keyed by ConnID — full registry (limit 2), NEW ConnID 3 with a known TunnelID => 3 entries; the code
@@ -190,8 +190,8 @@ Print Assumptions C17_mapping_release_not_idempotent_refuted.
 
 (* the slot as events: for EVERY sequence of acquire (limit known) / acquire during a quota fault (GetUserQuota fails: let
    through AND counted) / release / release-again events of every connection, any number of connections and every schedule,
-   the counter equals the number of connections holding a slot — never below zero, nobody is admitted uncounted, nothing is
-   released twice — and the holders admitted against a known limit stay within it *)
+   the counter equals the number of connections holding a slot — never below zero, nobody is accepted uncounted, nothing is
+   released twice — and the holders accepted against a known limit stay within it *)
 Theorem C17_slot_release_idempotent :
   forall (max : nat) (scripts : list (list hev)) (sched : list nat),
   let s := hrun true true max 0%Z (map h_new scripts) sched in
@@ -205,18 +205,18 @@ Theorem C17_slot_release_not_idempotent_refuted :
 Proof. exact slot_release_not_idempotent_refuted. Qed.
 Print Assumptions C17_slot_release_not_idempotent_refuted.
 
-(* admit-without-count on a quota fault (an early `return nil` before the counting branch): the counter under-reports while
+(* accept-without-count on a quota fault (an early `return nil` before the counting branch): the counter under-reports while
    that connection is open (0 with one holder), is -1 after its release, and then THREE connections hold a slot against the
    known limit 2 *)
-Theorem C17_slot_fault_admit_uncounted_refuted :
+Theorem C17_slot_fault_accept_uncounted_refuted :
   exists sched,
     let scripts := map h_new [[HAcqFault; HRel]; [HAcq]; [HAcq]; [HAcq]] in
     fst (hrun true false 2 0%Z scripts (firstn 1 sched)) = 0%Z /\
     countb h_holding (snd (hrun true false 2 0%Z scripts (firstn 1 sched))) = 1 /\
     fst (hrun true false 2 0%Z scripts (firstn 2 sched)) = (-1)%Z /\
     countb h_known_holding (snd (hrun true false 2 0%Z scripts sched)) = 3.
-Proof. exact slot_fault_admit_uncounted_refuted. Qed.
-Print Assumptions C17_slot_fault_admit_uncounted_refuted.
+Proof. exact slot_fault_accept_uncounted_refuted. Qed.
+Print Assumptions C17_slot_fault_accept_uncounted_refuted.
 
 (* ---- per-client quotas on active connection codes / active mappings (storage level) ---- *)
 
@@ -225,7 +225,7 @@ Print Assumptions C17_slot_fault_admit_uncounted_refuted.
 Definition C17_quota_full_statement : Prop :=
   forall (max base n : nat) (sched : list nat), base <= max -> fst (qrun max base (repeat QStart n) sched) <= max.
 
-(* what does hold on EVERY schedule: the stored count is exact (initial + admitted creations; refused requests
+(* what does hold on EVERY schedule: the stored count is exact (initial + accepted creations; refused requests
    contribute nothing) *)
 Theorem C17_quota_count_exact :
   forall (max base n : nat) (sched : list nat),
@@ -262,7 +262,7 @@ Print Assumptions C17_nonvacuous.
 
 Theorem C17_nonvacuous_schedules :
   (let s := srun Current 1 {| conns := 0; streams := 0 |} [s_new false; s_new false] [0; 1; 0; 0; 0; 1; 1; 1; 1] in
-   fst s = {| conns := 1; streams := 1 |} /\ map s_pc (snd s) = [SAdmitted; SRefused]) /\
+   fst s = {| conns := 1; streams := 1 |} /\ map s_pc (snd s) = [SAccepted; SRefused]) /\
   (overlap_free 10 (9, repeat QStart 3) [0; 0; 1; 2; 1] = true /\ fst (qrun 10 9 (repeat QStart 3) [0; 0; 1; 2; 1]) = 10).
 Proof. exact (conj server_cap_current_witness quota_guard_nonvacuous). Qed.
 Print Assumptions C17_nonvacuous_schedules.
@@ -274,41 +274,41 @@ Print Assumptions C17_nonvacuous_schedules.
 Theorem C17_quota_fail_closed :
   forall (max : nat) (recs : list bool) (idxfault : bool) (rfaults : list bool),
   max <= active recs ->
-  fst (admit_once Abort max recs idxfault rfaults) <> ACreated /\ snd (admit_once Abort max recs idxfault rfaults) = recs.
+  fst (accept_once Abort max recs idxfault rfaults) <> ACreated /\ snd (accept_once Abort max recs idxfault rfaults) = recs.
 Proof. exact quota_fail_closed. Qed.
 Print Assumptions C17_quota_fail_closed.
 
 Theorem C17_quota_abort_preserves_limit :
   forall max recs idxfault rfaults,
-  active recs <= max -> active (snd (admit_once Abort max recs idxfault rfaults)) <= max.
+  active recs <= max -> active (snd (accept_once Abort max recs idxfault rfaults)) <= max.
 Proof. exact quota_abort_preserves_limit. Qed.
 Print Assumptions C17_quota_abort_preserves_limit.
 
-(* a request that is not admitted changes nothing, under every read policy *)
-Theorem C17_quota_not_admitted_changes_nothing :
+(* a request that is not accepted changes nothing, under every read policy *)
+Theorem C17_quota_not_accepted_changes_nothing :
   forall p max recs idxfault rfaults,
-  fst (admit_once p max recs idxfault rfaults) <> ACreated -> snd (admit_once p max recs idxfault rfaults) = recs.
-Proof. exact admit_not_created_unchanged. Qed.
-Print Assumptions C17_quota_not_admitted_changes_nothing.
+  fst (accept_once p max recs idxfault rfaults) <> ACreated -> snd (accept_once p max recs idxfault rfaults) = recs.
+Proof. exact accept_not_created_unchanged. Qed.
+Print Assumptions C17_quota_not_accepted_changes_nothing.
 
 (* the lenient listings (skip a failing by-id read; ActivateConnectionCode's listing as found) refuse at the full quota
    only under the guard "no read fails" *)
 Theorem C17_quota_lenient_refuses_partial :
-  forall p max recs, max <= active recs -> admit_once p max recs false [] = (ARefused, recs).
+  forall p max recs, max <= active recs -> accept_once p max recs false [] = (ARefused, recs).
 Proof. exact quota_lenient_refuses_without_fault. Qed.
 Print Assumptions C17_quota_lenient_refuses_partial.
 
-(* ... and are refuted by a single failing read: "log and skip the unreadable record" admits one beyond a full quota *)
+(* ... and are refuted by a single failing read: "log and skip the unreadable record" accepts one beyond a full quota *)
 Theorem C17_quota_skip_refuted :
   exists recs f, active recs = 3 /\ countb (fun b => b) f = 1 /\
-                 admit_once SkipRecord 3 recs false f = (ACreated, true :: recs).
+                 accept_once SkipRecord 3 recs false f = (ACreated, true :: recs).
 Proof. exact quota_skip_refuted. Qed.
 Print Assumptions C17_quota_skip_refuted.
 
 (* ActivateConnectionCode step 5 as found (known finding conncode-activate-quota-fails-open-on-read-fault) *)
 Theorem C17_quota_open_refuted :
-  admit_once Open 1 [true] true [] = (ACreated, [true; true]) /\
-  admit_once Open 1 [true] false [true] = (ACreated, [true; true]).
+  accept_once Open 1 [true] true [] = (ACreated, [true; true]) /\
+  accept_once Open 1 [true] false [true] = (ACreated, [true; true]).
 Proof. exact quota_open_refuted. Qed.
 Print Assumptions C17_quota_open_refuted.
 
